@@ -17,7 +17,8 @@ RULE = (
     "configurations: clean_up in {None, True, False} x allow_incomplete x "
     "wait (only on complete crops) x farmer in {none, Runner, Harvester, "
     "Sampler} x injected failure stage in {none, incomplete crop, unreadable "
-    "result (truncated / garbage file), wrong output description (var_names "
+    "result (truncated / garbage file), over-long result with a falsy surplus "
+    "entry, wrong output description (var_names "
     "count, missing var_dims), harvester merge conflict with existing data, "
     "save error (data directory missing, injected OSError in the save call)} "
     "on generated small crops (2-8 settings, 1-4 batches, shuffle), followed "
@@ -42,6 +43,7 @@ FAILURES = {
     "none": FARMERS,
     "incomplete": FARMERS,
     "unreadable": FARMERS,
+    "overlong": FARMERS,
     "wrong_names": ["runner", "harvester"],
     "missing_dims": ["runner", "harvester"],
     "conflict": ["harvester"],
@@ -139,6 +141,21 @@ def run_case(case):
             with open(p, "wb") as f:
                 f.write(data[:len(data) // 2] if case["victim"] % 2
                         else b"garbage" + data[7:])
+        if failure == "overlong":
+            # a result holding more entries than its batch (the situation
+            # check_bad exists for); the surplus entry is falsy
+            p = crops.result_path(root, "c12", victim)
+            with open(p, "rb") as f:
+                res_ = pickle.load(f)
+            surplus = res_[-1]
+            try:
+                surplus = type(surplus)(0 * w_ for w_ in surplus) \
+                    if isinstance(surplus, tuple) else 0 * surplus
+            except Exception:
+                surplus = None
+            with open(p, "wb") as f:
+                pickle.dump(tuple(res_) + (surplus if case["victim"] % 2
+                                           else None,), f)
         cdir = crops.crop_dir(root, "c12")
         digest0 = crops.tree_digest(cdir)
         partial_ok = failure == "incomplete" and allow_inc and B > 1
@@ -218,7 +235,7 @@ def run_case(case):
             with under_test("correct the cause"):
                 if failure == "incomplete":
                     crop.grow_missing()
-                elif failure == "unreadable":
+                elif failure in ("unreadable", "overlong"):
                     crop.check_bad()
                     crop.grow_missing()
                 elif failure in ("wrong_names", "missing_dims"):
